@@ -7,7 +7,7 @@ PLAN = {
     "C01": dict(
         quick=[("lit_finish_exit", dict(shuffle=8)), ("lit_foreign_finish", dict(cap=1000, shuffle=6)), ("lit_child_other", dict(cap=1000, shuffle=6)), "lit_local_scope",
                ("lit_spawn_sweep", dict(cap=1000, shuffle=6)), ("par4", dict(shuffle=4)), ("over5_d", dict(cap=600)), ("smp_mixed", dict(cap=1500)), ("tree4", dict(cap=1500)), ("over_recover", dict(cap=800)),
-               ("stress:tree4", dict(rounds=200, threads=6)), ("stress:over5_d", dict(rounds=150, threads=4, cfg=dict(K=2))), "burst:9000", "overlap:1", ("lit_reinstall", dict(cap=1200))],
+               ("stress:tree4", dict(rounds=200, threads=6)), ("stress:over5_d", dict(rounds=150, threads=4, cfg=dict(K=2))), "burst:9000", "burstm:9000", "overlap:1", ("lit_reinstall", dict(cap=1200))],
         thorough=["lit_reinstall", ("reinst5", dict(cap=6000, timeout=2400)), "lit_finish_exit", "lit_foreign_finish", "lit_child_other", "lit_local_scope", "lit_attach_other", "lit_spawn_sweep", "par4", "par5",
                   "over5_d", "tree5", ("sim_par3", dict(cap=6000)), ("stress:tree4", dict(rounds=2000, threads=6)), "burst:9000", "overlap:1"],
         vacuity=[("lit_finish_exit", ["FixRecv"])],
@@ -47,7 +47,7 @@ PLAN = {
     ),
     "C08": dict(
         quick=["lit_finish_exit", "lit_foreign_finish", ("lit_spawn_sweep", dict(cap=800)), "par4", ("over5_d", dict(cap=800)), ("cancel4_c", dict(cap=400)),
-               "extra:churn_late", "extra:churn_mixed", "extra:churn_pool_c", ("stress:tree4", dict(rounds=200, threads=6))],
+               "extra:churn_late", "extra:churn_mixed", "extra:churn_pool_c", "burstm:9000", ("stress:tree4", dict(rounds=200, threads=6))],
         thorough=["lit_finish_exit", "lit_foreign_finish", "lit_spawn_sweep", "par4", "par5", "over5_d", "cancel4_c", ("sim_par3", dict(cap=6000)),
                   "extra:churn_late", "extra:churn_mixed", "extra:churn_pool_c"],
         vacuity=[("lit_finish_exit", ["FixRecv"]), ("over5_d", ["FixFifo"])],
